@@ -165,7 +165,7 @@ SELECT
     NULL::VARCHAR AS "comment",
     NULL::VARCHAR AS "policy name",
     NULL::JSON AS "privacy domain",
-FROM information_schema._fs_columns_snowflake
+FROM ${catalog_prefix}information_schema._fs_columns_snowflake
 WHERE table_catalog = '${catalog}' AND table_schema = '${schema}' AND table_name = '${table}'
 ORDER BY ordinal_position
 """
@@ -214,7 +214,13 @@ def describe_table(
             return sqlglot.parse_one(SQL_DESCRIBE_INFO_SCHEMA.substitute(view=table.name), read="duckdb")
 
         return sqlglot.parse_one(
-            SQL_DESCRIBE_TABLE.substitute(catalog=catalog, schema=schema, table=table.name),
+            SQL_DESCRIBE_TABLE.substitute(
+                # each database's view describes the columns of that database
+                catalog_prefix=f"{catalog}." if catalog else "",
+                catalog=catalog,
+                schema=schema,
+                table=table.name,
+            ),
             read="duckdb",
         )
 
